@@ -297,7 +297,8 @@ fn main() {
 
     // ---- decode side: deviations of a covering subset of encodings
     let step = if thorough { g.len() / 256 } else { g.len() / 64 };
-    let bases: Vec<Vec<u8>> = g.iter().step_by(step.max(1)).map(abi_hub).collect();
+    let base_msgs: Vec<&RHub> = g.iter().step_by(step.max(1)).collect();
+    let bases: Vec<Vec<u8>> = base_msgs.iter().map(|h| abi_hub(h)).collect();
     let mut n_mut = 0u64;
     let mut samples: Vec<serde_json::Value> = vec![];
     for (bi, base) in bases.iter().enumerate() {
@@ -335,6 +336,19 @@ fn main() {
             let mut m = base.clone();
             m.extend(std::iter::repeat(fill).take(n));
             muts.push(m);
+        }
+        // a canonical wrapper around an inner message with trailing bytes (the wrapper's own
+        // offsets, lengths and padding are all canonical)
+        {
+            let (tag, chain, msg) = match base_msgs[bi] {
+                RHub::SendToHub { chain, msg } => (3u128, chain, msg),
+                RHub::ReceiveFromHub { chain, msg } => (4u128, chain, msg),
+            };
+            for (n, fill) in [(1usize, 0u8), (32, 0), (32, 0xab), (64, 0)] {
+                let mut inner = abi_msg(msg);
+                inner.extend(std::iter::repeat(fill).take(n));
+                muts.push(abi_params(&[Tok::Word(word_u128(tag)), Tok::Dyn(chain.clone()), Tok::Dyn(inner)]));
+            }
         }
         if samples.len() < 3 {
             samples.push(serde_json::json!({"base_encoding_hex": hex(base), "example_deviation_hex": hex(&muts[muts.len() / 2]), "deviations_of_this_base": muts.len()}));
@@ -387,7 +401,7 @@ fn main() {
     let cov = serde_json::json!({
         "evaluations": st.evals.load(Ordering::Relaxed),
         "distinct_nontrivial": st.distinct.load(Ordering::Relaxed),
-        "rule": "encode side: the full product grid of hub messages (both wrappers x both inner kinds; chain names of 0/1/31/32/33 bytes and multi-byte; ids 00.., ff.., pattern; address/data/minter lengths 0,1,31,32,33,64,65; amounts 0,1,1000,2^64,2^127-1; names/symbols of 1 byte, 2- and 4-byte UTF-8 scalars, 31/32/33 bytes; decimals 0,1,18,255): abi_encode must equal the independent head/tail encoder byte for byte and decode back to the same message. Decode side: for a covering subset of 64 (quick) / 256 (thorough) encodings every truncation, every single-bit flip, every 32-byte word replaced by each of ~30 boundary words, pairs of word replacements, 8 kinds of trailing bytes; all byte strings of length <= 2; all one-hot words; short type-tag-only inputs. Oracle: no panic, and Ok(m) implies both re-encoding m and the independent encoding of m reproduce the input exactly. A case is distinct when its byte string (or message) differs; all are non-trivial (each is a decode or encode compared with the reference)",
+        "rule": "encode side: the full product grid of hub messages (both wrappers x both inner kinds; chain names of 0/1/31/32/33 bytes and multi-byte; ids 00.., ff.., pattern; address/data/minter lengths 0,1,31,32,33,64,65; amounts 0,1,1000,2^64,2^127-1; names/symbols of 1 byte, 2- and 4-byte UTF-8 scalars, 31/32/33 bytes; decimals 0,1,18,255): abi_encode must equal the independent head/tail encoder byte for byte and decode back to the same message. Decode side: for a covering subset of 64 (quick) / 256 (thorough) encodings every truncation, every single-bit flip, every 32-byte word replaced by each of ~30 boundary words, pairs of word replacements, 8 kinds of trailing bytes, 4 kinds of trailing bytes on the inner message inside a canonical wrapper; all byte strings of length <= 2; all one-hot words; short type-tag-only inputs. Oracle: no panic, and Ok(m) implies both re-encoding m and the independent encoding of m reproduce the input exactly. A case is distinct when its byte string (or message) differs; all are non-trivial (each is a decode or encode compared with the reference)",
         "samples": samples,
         "exhaustive": fail.is_none(),
         "grid_messages": n_grid,
